@@ -428,3 +428,344 @@ func compositeCase(w *bufio.Writer, rng *prng.R, id string) {
 	}
 	d.finish(w, "composite", id, refCancel, refDone)
 }
+
+// ---------------------------------------------------------------- composite, failure families (mode compfail)
+
+// fchild is a contract mock like child, plus: a real (non-cancellation) error returned from Run()
+// in reaction to Stop() (stopErr) or to the cancellation of its context (cancelErr), and a
+// director-controlled hold inside ReloadWithConfig (a child that is slow to reload).
+type fchild struct {
+	name               string
+	l                  *log
+	failCh             chan error
+	mu                 sync.Mutex
+	stopCh             chan struct{}
+	stopErr, cancelErr error
+
+	holdMu  sync.Mutex
+	hold    chan struct{}
+	holding chan struct{}
+	entered bool
+}
+
+var errOnStop = errors.New("teardown failed")
+var errOnCancel = errors.New("aborted with an error of its own")
+
+func newFChild(name string, l *log) *fchild {
+	return &fchild{name: name, l: l, failCh: make(chan error, 1), stopCh: make(chan struct{})}
+}
+func (c *fchild) String() string { return c.name }
+func (c *fchild) Run(ctx context.Context) error {
+	c.mu.Lock()
+	c.stopCh = make(chan struct{})
+	sc := c.stopCh
+	c.mu.Unlock()
+	select {
+	case <-ctx.Done():
+		if c.cancelErr != nil {
+			c.l.emit(evFail) // logged before the error can reach the composite
+			return c.cancelErr
+		}
+		return ctx.Err()
+	case <-sc:
+		if c.stopErr != nil {
+			c.l.emit(evFail)
+			return c.stopErr
+		}
+		return nil
+	case e := <-c.failCh:
+		return e
+	}
+}
+func (c *fchild) Stop() {
+	c.mu.Lock()
+	defer c.mu.Unlock()
+	select {
+	case <-c.stopCh:
+	default:
+		close(c.stopCh)
+	}
+}
+func (c *fchild) ReloadWithConfig(any) {
+	c.holdMu.Lock()
+	h, hg := c.hold, c.holding
+	first := h != nil && !c.entered
+	if first {
+		c.entered = true
+	}
+	c.holdMu.Unlock()
+	if first {
+		close(hg)
+		<-h
+	}
+}
+func (c *fchild) armHold() chan struct{} {
+	c.holdMu.Lock()
+	defer c.holdMu.Unlock()
+	c.hold, c.holding, c.entered = make(chan struct{}), make(chan struct{}), false
+	return c.holding
+}
+func (c *fchild) unhold() {
+	c.holdMu.Lock()
+	if c.hold != nil {
+		close(c.hold)
+		c.hold = nil
+	}
+	c.holdMu.Unlock()
+}
+
+// compositeFailCase: (i) a child fails while a Reload() is in progress - blocked inside a child's
+// ReloadWithConfig, parked on one of its log records (in place / before and after stopAllRunnables and
+// boot), waiting for reloadMu - then the reload is let go; (ii) children that return a real error from
+// Run() in reaction to Stop()/cancel, alone and racing Stop()/cancel/Reload().  Everything observed as
+// in compositeCase: Run()'s result and the state read at its return, the reference subscriber's whole
+// stream, extra subscribers, polls.
+func compositeFailCase(w *bufio.Writer, rng *prng.R, id string) {
+	ph := &director.ParkHandler{}
+	d := newDrive(rng, ph)
+	nch := 1 + rng.Intn(3)
+	var kids []*fchild
+	for i := 0; i < nch; i++ {
+		kids = append(kids, newFChild(fmt.Sprintf("k%d", i), d.l))
+	}
+	extra := newFChild("extra", d.l)
+	var withExtra atomic.Bool
+	cb := func() (*composite.Config[*fchild], error) {
+		d.l.emit(evCbOk)
+		ks := append([]*fchild(nil), kids...)
+		if withExtra.Load() {
+			ks = append(ks, extra)
+		}
+		return composite.NewConfigFromRunnables("c", ks, nil)
+	}
+	r, err := composite.NewRunner(cb, composite.WithLogHandler[*fchild](ph))
+	if err != nil {
+		panic(err)
+	}
+	d.r = r
+	refCancel, refDone := d.l.startRef(r)
+	defer func() {
+		for _, k := range append(kids, extra) {
+			k.unhold()
+		}
+	}()
+	reload := func(flip bool) {
+		d.wg.Add(1)
+		go func() {
+			defer d.wg.Done()
+			d.l.emit(evReloadCall)
+			if flip {
+				withExtra.Store(!withExtra.Load())
+			}
+			r.Reload(context.Background())
+			d.l.emit(evReloadRet)
+		}()
+	}
+	failChild := func() {
+		k := kids[rng.Intn(len(kids))]
+		d.l.emit(evFail)
+		select {
+		case k.failCh <- errInjected:
+		default:
+		}
+	}
+	errKids := func(onStop, onCancel bool) {
+		some := false
+		for _, k := range append(kids, extra) {
+			if rng.Chance(2, 3) {
+				some = true
+				if onStop {
+					k.stopErr = errOnStop
+				}
+				if onCancel {
+					k.cancelErr = errOnCancel
+				}
+			}
+		}
+		if !some {
+			if onStop {
+				kids[0].stopErr = errOnStop
+			}
+			if onCancel {
+				kids[0].cancelErr = errOnCancel
+			}
+		}
+	}
+	inPlace := []string{"Updating config", "Config updated", "Reloading configs of existing runnables",
+		"Reloading child runnable with config", "Reloaded runnables without membership change"}
+	beforeStop := []string{"Membership change detected", "Reloading runnables due to membership change", "Stopping child runnable"}
+	afterStop := []string{"Updating config after stopping", "Config updated", "Starting child runnables"}
+	afterBoot := []string{"All child runnables launched", "Reloaded runnables due to membership change", "Completed."}
+	// a reload parked on a record of the given class; returns the park (nil if it was not reached)
+	parkedReload := func(class int) *director.Park {
+		var msgs []string
+		flip := true
+		switch class {
+		case 0:
+			msgs, flip = inPlace, false
+		case 1:
+			msgs = beforeStop
+		case 2:
+			msgs = afterStop
+		default:
+			msgs = afterBoot
+		}
+		p := ph.ParkOn(prng.Pick(rng, msgs))
+		reload(flip)
+		if p.WaitReached(300 * time.Millisecond) {
+			d.note("park")
+			d.quiet()
+			return p
+		}
+		p.Release()
+		return nil
+	}
+	if rng.Chance(1, 4) {
+		d.addSub()
+	}
+	if rng.Chance(1, 4) {
+		d.addSubAsync()
+	}
+	v := rng.Intn(10)
+	d.note(fmt.Sprintf("v%d", v))
+	var runPark *director.Park
+	switch v {
+	case 0, 3, 4:
+		errKids(true, rng.Bool())
+	case 1:
+		errKids(rng.Bool(), true)
+	case 2:
+		runPark = ph.ParkOn("Stop() called")
+		if rng.Bool() {
+			errKids(true, false)
+		}
+	}
+	d.callRun()
+	d.quiet()
+	if rng.Chance(1, 2) {
+		d.l.poll(r)
+	}
+	if rng.Chance(1, 5) { // an earlier undisturbed reload
+		reload(rng.Chance(1, 3))
+		d.waitCalls(2 * time.Second)
+		d.quiet()
+	}
+	switch v {
+	case 0:
+		d.callStop()
+	case 1:
+		d.callCancel()
+	case 2: // Run() is past its select on the Stop() branch when a child fails on its own
+		d.callStop()
+		if runPark.WaitReached(300 * time.Millisecond) {
+			d.note("park")
+			failChild()
+			d.quiet()
+			if rng.Bool() {
+				d.l.poll(r)
+			}
+		}
+		runPark.Release()
+	case 3: // Stop() and a Reload() together
+		if rng.Bool() {
+			d.callStop()
+			reload(rng.Bool())
+		} else {
+			reload(rng.Bool())
+			d.callStop()
+		}
+	case 4: // a parked Reload(), then Stop()/cancel, then the reload is let go
+		p := parkedReload(rng.Intn(4))
+		if rng.Chance(2, 3) {
+			d.callStop()
+		} else {
+			d.callCancel()
+		}
+		d.quiet()
+		if rng.Bool() {
+			d.l.poll(r)
+		}
+		if p != nil {
+			p.Release()
+		}
+	case 5: // a child fails while an in-place Reload() is blocked inside a child's ReloadWithConfig
+		h := kids[rng.Intn(len(kids))]
+		hg := h.armHold()
+		reload(false)
+		if waitCh(hg, 300*time.Millisecond) {
+			d.note("park")
+			d.quiet()
+			failChild()
+			d.quiet()
+			d.l.poll(r)
+		}
+		h.unhold()
+	case 6: // a child fails while a Reload() is parked on one of its records
+		p := parkedReload(rng.Intn(4))
+		failChild()
+		d.quiet()
+		d.l.poll(r)
+		if p != nil {
+			p.Release()
+		}
+	case 7: // the failing child's goroutine is parked before its report; a Reload() starts; the report is let through
+		cp := ph.ParkOn("Returned unexpected error")
+		failChild()
+		if cp.WaitReached(300 * time.Millisecond) {
+			d.note("park")
+			var p *director.Park
+			if rng.Bool() {
+				p = parkedReload(rng.Intn(2)) // in place, or before the Stop() calls of a restart
+			} else {
+				reload(rng.Bool()) // a restart blocks in the drain of stopAllRunnables behind the parked goroutine
+				d.quiet()
+			}
+			cp.Release()
+			d.quiet()
+			d.l.poll(r)
+			if p != nil {
+				p.Release()
+			}
+		}
+		cp.Release()
+	case 8: // a second Reload() waits for reloadMu behind a parked one when the child fails
+		p := parkedReload(rng.Intn(2))
+		reload(rng.Bool())
+		d.quiet()
+		failChild()
+		d.quiet()
+		d.l.poll(r)
+		if p != nil {
+			p.Release()
+		}
+	default: // Run()'s failure teardown is parked inside stopAllRunnables (holding reloadMu); a Reload() waits
+		p := ph.ParkOn("Stopping child runnable")
+		failChild()
+		if p.WaitReached(300 * time.Millisecond) {
+			d.note("park")
+			reload(rng.Bool())
+			d.quiet()
+			d.l.poll(r)
+		}
+		p.Release()
+	}
+	d.waitCalls(2 * time.Second)
+	d.quiet()
+	if rng.Bool() {
+		d.l.poll(r)
+	}
+	d.rr.mu.Lock()
+	ret := d.rr.returned
+	d.rr.mu.Unlock()
+	if !ret {
+		if rng.Chance(2, 3) {
+			d.callStop()
+		} else {
+			d.callCancel()
+		}
+	}
+	if waitCh(d.rr.done, 3*time.Second) && rng.Chance(1, 6) {
+		reload(false) // Reload on a finished runner
+	}
+	d.finish(w, "composite", id, refCancel, refDone)
+}
